@@ -2,6 +2,7 @@ CONSTANTS
   Families = {"roaring", "pql", "msg", "env"}
   Entries = {"unmarshal", "irb_set_btree", "irb_clear_slice", "frag_open"}
   SrvEntries = {"api_import_set", "api_import_views", "http_import_clear"}
+  CtlEntries = {"unmarshal", "irb_set_slice", "irb_clear_slice", "irb_set_btree", "irb_clear_btree", "frag_open", "api_import_set", "api_import_clear", "api_import_views", "http_import_set", "http_import_clear"}
   PqlEntries = {"api_query", "http_query"}
   EnvEntries = {"api_import_env", "http_import_env"}
   MsgEntries = {"api_msg", "http_msg", "gossip_msg", "gossip_merge"}
